@@ -674,6 +674,92 @@ class Scheme(Base):
                 self.restore(c, sv)
             ctx.end()
 
+    def correlated(self, cname, maxpairs=10, eq_rate=0.3):
+        """correlated alterations of two components of the same group, built from the accepted signature alone:
+        (x + D, y - D), (y, x), (x + [k]y, y), (x, y + [k]x).  Verifiers that test several equations must not merge
+        them in a way that lets such pairs cancel; the verdict must equal the defining-equation oracle."""
+        ctx, R, rng = self.ctx, self.R, self.rng
+        n = R.n
+        groups = {}
+        for c in self.comps():
+            if c.kind in ("bn", "ec", "g1", "g2"):
+                groups.setdefault("g1" if c.kind in ("ec", "g1") else c.kind, []).append(c)
+        tmp = None
+        for kind, cs in groups.items():
+            pairs = [(x, y) for i, x in enumerate(cs) for y in cs[i + 1:]]
+            rng.shuffle(pairs)
+            if kind == "g2" and tmp is None:
+                tmp = (R.new("g2"), R.new("bn"))
+            for x, y in pairs[:maxpairs]:
+                sx, sy = self.snap(x), self.snap(y)
+                d, k = rng.randrange(1, n), rng.randrange(2, n)
+                for variant in ("x+D,y-D", "swapped", "x+[k]y", "y+[k]x"):
+                    if variant == "swapped" and sx == sy:
+                        continue
+                    if not ctx.begin("%s|pair-%s:%s" % (self.verfn, kind, variant), [cname, self.name, x.name, y.name]):
+                        continue
+                    try:
+                        if variant == "swapped":
+                            self.restore(x, sy)
+                            self.restore(y, sx)
+                        elif kind == "bn":
+                            vx, vy = R.bn_get(x.ptr)[0], R.bn_get(y.ptr)[0]
+                            if variant == "x+D,y-D":
+                                R.bn_put(x.ptr, (vx + d) % n)
+                                R.bn_put(y.ptr, (vy - d) % n)
+                            elif variant == "x+[k]y":
+                                R.bn_put(x.ptr, (vx + k * vy) % n)
+                            else:
+                                R.bn_put(y.ptr, (vy + k * vx) % n)
+                        elif kind == "g1":
+                            E, F = R.EC, R.FCv
+                            P, Q = R.pt(x.ptr), R.pt(y.ptr)
+                            if variant == "x+D,y-D":
+                                D = F.mul(d, R.G)
+                                R.pt_put(x.ptr, E.add(P, D))
+                                R.pt_put(y.ptr, E.add(Q, E.neg(D)))
+                            elif variant == "x+[k]y":
+                                R.pt_put(x.ptr, E.add(P, F.mul(k, Q)))
+                            else:
+                                R.pt_put(y.ptr, E.add(Q, F.mul(k, P)))
+                        else:
+                            T, kb = tmp
+                            if variant == "x+D,y-D":
+                                R.call("g2_rand", T)
+                                R.call("g2_add", x.ptr, x.ptr, T)
+                                R.call("g2_norm", x.ptr, x.ptr)
+                                R.call("g2_sub", y.ptr, y.ptr, T)
+                                R.call("g2_norm", y.ptr, y.ptr)
+                            else:
+                                a_, b_ = (x, y) if variant == "x+[k]y" else (y, x)
+                                R.bn_put(kb, k)
+                                R.call("g2_mul", T, b_.ptr, kb)
+                                R.call("g2_add", a_.ptr, a_.ptr, T)
+                                R.call("g2_norm", a_.ptr, a_.ptr)
+                        ctx.cur_desc = [cname, x.name, y.name, self.describe()]
+                        lv = self.verdict(self.ver())
+                        if lv != "rej" or rng.random() < eq_rate:
+                            ev = self.eqn()
+                            if ev is None:
+                                ctx.add("undecided_by_definition")
+                            else:
+                                self.judge(lv, ev, {"lib": lv, "equation": ev})
+                        else:
+                            ctx.ok()
+                    except MonitorViolation as e:
+                        ctx.fail(ctx.cur_key + "|" + e.kind, e.detail)
+                    finally:
+                        self.restore(x, sx)
+                        self.restore(y, sy)
+                        ctx.end()
+        if tmp:
+            R.free(tmp[0])
+            R.free(tmp[1])
+        self.special(cname)
+
+    def special(self, cname):
+        """scheme-specific constructions (override)"""
+
     def honest(self, cname, msg, what="honest", eq_rate=1.0):
         """sign msg and require acceptance by the library and (on a sample) by the equation"""
         ctx = self.ctx
@@ -1241,6 +1327,7 @@ def run_ec(ctx):
                 # every member position (first, middle, last) is altered; exhaustive flips only on the trapdoor
                 full = set(["td"]) if full else ()
             sch.mutate(nm, full_names=full, sample=0.02 if heavy else 0.05, light=q and heavy and getattr(sch, "size", 2) > 1)
+            sch.correlated(nm, maxpairs=6 if q else 20)
             ctx.add("seconds_mutation:" + sch.name, round(time.time() - t0, 1))
             sch.finish()
     ctx.note("functions_exercised", sorted(k for k in R.fn_seen if k.startswith("cp_")))
@@ -1806,6 +1893,31 @@ class Cls(PairScheme):
 
     def ver(self):
         return self.call_m("cp_cls_ver", [self.a, self.b, self.c], [self.x, self.y], self.msg.val)
+
+    def special(self, cname):
+        """b' = b + [k]T, c' = c - [k]T + [mk]c with T = a + [m]b: cancels in e(a,Y) e(a+[m]b,X) e(b+c,-g) when the two
+        equations of the scheme are merged without random weights; it satisfies neither equation on its own"""
+        ctx, R, rng = self.ctx, self.R, self.rng
+        E, F, n = R.EC, R.FCv, R.n
+        if not ctx.begin("cp_cls_ver|pair-g1:batching-forgery", [cname, self.name]):
+            return
+        sb, sc = R.snap(self.b, R.ep_sz), R.snap(self.c, R.ep_sz)
+        try:
+            m = self.m_int(self.msg.val, False)
+            a, b, c = R.pt(self.a), R.pt(self.b), R.pt(self.c)
+            k = rng.randrange(2, n)
+            kT = F.lin(k, a, k * m % n, b)
+            R.pt_put(self.b, E.add(b, kT))
+            R.pt_put(self.c, E.add(E.add(c, E.neg(kT)), F.mul(m * k % n, c)))
+            ctx.cur_desc = [cname, self.describe()]
+            lv = self.verdict(self.ver())
+            self.judge(lv, self.eqn(), {"lib": lv})
+        except MonitorViolation as e:
+            ctx.fail(ctx.cur_key + "|" + e.kind, e.detail)
+        finally:
+            R.restore(self.b, sb)
+            R.restore(self.c, sc)
+            ctx.end()
 
     def eqn(self):
         for P in (self.a, self.b, self.c):
@@ -2423,6 +2535,11 @@ def run_pairing(ctx):
                     names = [c.name for c in sch.comps()]
                     only = lambda c, names=names: names.index(c.name) % 2 == ctx.seed % 2
                 sch.mutate(nm, full_names=full, sample=0.03, only=only)
+                sch.correlated(nm, maxpairs=6 if q else 20)
+                if sch.name in ("cls", "cli", "clb") and not pre:
+                    # messages that encode 0: the message-dependent terms vanish, plain exchanges of components remain
+                    if sch.honest(nm, rng.choice([b"", b"\x00", bytes(7)]), "mutation-base"):
+                        sch.correlated(nm, maxpairs=6 if q else 20)
             sch.pre = 0
             ctx.add("seconds_mutation:" + sch.name, round(time.time() - t0, 1))
             sch.finish()
